@@ -198,7 +198,13 @@ def runPS (c : Case) : List String :=
                                ax1 := { steps := n, min := e 2, max := e 3 },
                                fset := c.off, pos := c.off.map fun f => decide (f > 0) }
   -- the constructor refuses fillings not normalised to 1e-5
-  let s0 := psConstruct k c.data
+  -- `psg`: the constructor samples the Gaussian itself:
+  --   rv[i] = one_div_root_two_pi<float>() * std::exp((-0.5)*at(i)*at(i)/zoom2)   (evaluated in double, stored as float)
+  let zoom : Float := (e 4).toFloat
+  let gaus := fun (ax : Ruler Float32) (i : Nat) =>
+    let a : Float := (ax.at i).toFloat
+    ((Float32.ofBits 0x3ecc422a).toFloat * Float.exp ((-0.5) * a * a / (zoom * zoom))).toFloat32
+  let s0 := if c.kind = "psg" then psConstructGauss k (gaus k.ax0) (gaus k.ax1) else psConstruct k c.data
   let (_, lines) := c.words.foldl (fun (acc : PSState Float32 × List String) op =>
     let (s, out) := acc
     match op with
@@ -610,6 +616,7 @@ def dispatch (c : Case) : List String :=
   | "ident" => runIdent c
   | "rf" => runRF c
   | "ps" => runPS c
+  | "psg" => runPS c
   | "ef" => runEF c
   | "opts" => runOpts c
   | "fpiter" => runFPIter c
